@@ -312,9 +312,7 @@ func symConv(dst types.Type, x sym) value {
 	case types.Bool:
 		return x
 	case types.String:
-		// string(rune): concretise
-		v := cur.concretize(x.e)
-		return string(rune(int32(concSigned(v, x.k))))
+		return symRuneToString(x)
 	case types.Float32, types.Float64, types.Complex64, types.Complex128:
 		v := cur.concretize(x.e)
 		return conv(dst, types.Typ[x.k], concOf(x.k, v))
@@ -325,6 +323,37 @@ func symConv(dst types.Type, x sym) value {
 		return x
 	}
 	return mkSym(smt.Resize(x.e, kindWidth(dk), kindSigned(x.k)), dk)
+}
+
+// symRuneToString implements string(rune) for a symbolic integer: forks on the UTF-8 length class.
+func symRuneToString(x sym) value {
+	r := smt.Resize(x.e, 32, kindSigned(x.k))
+	if x.e.W > 32 {
+		// values outside int32 are invalid runes
+		fits := smt.Eq(smt.Resize(r, x.e.W, true), x.e)
+		if !cur.branch(fits) {
+			return "\uFFFD"
+		}
+	}
+	c := func(v uint64) *smt.Expr { return smt.Const(32, v) }
+	b := func(e *smt.Expr) value { return mkSym(smt.Extract(7, 0, e), types.Uint8) }
+	or := func(k uint64, e *smt.Expr) *smt.Expr { return smt.Bin("bvor", c(k), e) }
+	shr := func(e *smt.Expr, n uint64) *smt.Expr { return smt.Bin("bvlshr", e, c(n)) }
+	low6 := func(e *smt.Expr) *smt.Expr { return smt.Bin("bvand", e, c(0x3F)) }
+	if cur.branch(smt.Cmp("bvult", r, c(0x80))) {
+		return normStr([]value{b(r)})
+	}
+	if cur.branch(smt.Cmp("bvult", r, c(0x800))) {
+		return normStr([]value{b(or(0xC0, shr(r, 6))), b(or(0x80, low6(r)))})
+	}
+	invalid := smt.Or(smt.Cmp("bvugt", r, c(0x10FFFF)), smt.And(smt.Cmp("bvuge", r, c(0xD800)), smt.Cmp("bvule", r, c(0xDFFF))))
+	if cur.branch(invalid) {
+		return "\uFFFD"
+	}
+	if cur.branch(smt.Cmp("bvult", r, c(0x10000))) {
+		return normStr([]value{b(or(0xE0, shr(r, 12))), b(or(0x80, low6(shr(r, 6)))), b(or(0x80, low6(r)))})
+	}
+	return normStr([]value{b(or(0xF0, shr(r, 18))), b(or(0x80, low6(shr(r, 12)))), b(or(0x80, low6(shr(r, 6)))), b(or(0x80, low6(r)))})
 }
 
 func concSigned(v uint64, k types.BasicKind) int64 {
@@ -517,6 +546,8 @@ func describeStr(v value) string {
 	}
 	return fmt.Sprint(v)
 }
+
+const tokenADD = token.ADD
 
 type runtimeError string
 
